@@ -39,7 +39,18 @@ CHECKS = {
             "Trusted: the independent reader in vp/gen/mfl.py written from docs/mfl.rst and the grammar comments; rules of docs/modelsearch.rst.", "DESIGN.md §3 C18"),
 }
 
-READY = ["C01", "C10", "C17", "C18"]
+CHECKS.update({
+    "C13": ("exploration",
+            "character-level reference reader written from the NM-TRAN rules in docs/NONMEM.rst vs read_model(...).dataset and read_nonmem_dataset on generated data files; write/read cycle monitor",
+            "Generated data files built item by item from the documented lexical forms, $INPUT lists and IGNORE/ACCEPT filters are read through the real reader (two entry points) and compared cell by cell with an independent reference reader; random frames are written with write_csv/write_model and re-read.",
+            "Trusted: the reference reader in vp/gen/datafiles.py (my reading of the docs/NONMEM.rst bullet rules); Python float() for normalised tokens.", "DESIGN.md §3 C13"),
+    "C20": ("exploration",
+            "reference writer renders synthetic NONMEM runs in the documented fixed-width formats; NONMEMTableFile and read_modelfit_results must return float(printed token), designated rows, consistent names and the defining relations",
+            "Synthetic runs (ext/phi/cov/cor/coi/$TABLE/lst + control stream) are written by an independent writer and read by the real readers; parsed values, special rows, labels, relations cor/coi/se and the JSON round trip are checked on every run.",
+            "Trusted: vp/gen/nmoutput.py (formats as documented and as in the checked-in example outputs); numpy for matrix relations with condition-number scaled tolerances.", "DESIGN.md §3 C20"),
+})
+
+READY = ["C01", "C10", "C11", "C13", "C17", "C18", "C20"]
 
 NOT_BUILT = "check not built yet in this session (design in DESIGN.md); not claimed"
 
